@@ -81,6 +81,14 @@ def gen(tier, seed):
                     for _ in range(4):
                         cmds += [("continue",), ("registers",)]
                     specs.append(("reset-keeps-list", 0, src_b, [], cmds + [("breaklist",), ("exit",)]))
+    # labels differing only in letter case mark DIFFERENT statements: a breakpoint given by label lands on, and is removed from,
+    # the statement that label marks
+    twins = "        and r0 r0 #0\nstop    add r0 r0 #1\n        add r0 r0 #1\nSTOP    add r0 r0 #1\nStop    add r0 r0 #1\n        halt\n"
+    for name in ("stop", "STOP", "Stop", "sTOP", "stoP"):
+        for other in ("stop", "STOP", "Stop"):
+            specs.append(("case-twins", 0, twins, [], [("breakadd", ("label", name, 0)), ("breaklist",), ("continue",), ("registers",),
+                                                       ("breakadd", ("label", other, 0)), ("breakremove", ("label", name, 0)), ("breaklist",),
+                                                       ("continue",), ("registers",), ("continue",), ("registers",), ("exit",)]))
     # the stale-breakpoint witness (F12) and the one-instruction self loop
     specs.append(("corpus", 0, "add r0 r0 #1\nadd r0 r0 #1\nadd r0 r0 #1\nadd r0 r0 #1\nhalt\n", [],
                   [("breakadd", ("addr", 0x3002)), ("continue",), ("registers",), ("goto", ("addr", 0x3001)), ("continue",), ("registers",), ("exit",)]))
